@@ -9,5 +9,12 @@ VC == IF Wide THEN {-1, 0, 2} ELSE {-1, 1}
 VARIABLES a, b, c, pc
 Init == a \in [1..4 -> VA] /\ b = <<>> /\ c = <<>> /\ pc = "in"
 Next == pc = "in" /\ pc' = "ops" /\ b' \in [1..4 -> VB] /\ c' \in [1..4 -> VC] /\ UNCHANGED a
+\* complex blocks built from the integer ones (a + i b, b + i c): the adjoint is the conjugate transpose
+CplxInv == pc = "ops" =>
+    LET X == CPairs(a, b)
+        Y == CPairs(b, c)
+        u == <<X[1], Y[2]>>
+        v == <<Y[3], X[4]>>
+    IN  CAdjointOK(X, Y, u, v, 2, 2, 2) /\ CAdjointOK(u, <<Y[1]>>, <<X[2]>>, v, 2, 1, 1)
 RingInv == pc = "ops" => RingOK(a, b, c, 3, 2) /\ RingOK(c, a, b, -2, 2)
 =============================================================================
